@@ -33,7 +33,7 @@ def scope(tier):
 
 def shards(tier):
     out = [dict(part="bytes"), dict(part="portcpu"), dict(part="args"),
-           dict(part="decode")]
+           dict(part="decode"), dict(part="history")]
     out += [dict(part="cmd", k=k) for k in range(4)]
     out += [dict(part="seq", k=k) for k in range(4)]
     if tier != "quick":
@@ -232,6 +232,63 @@ def part_decode(acc):
     acc.sample(dict(part="decode", lengths=[0, 20], n_args=[0, 3]))
 
 
+def part_history(acc):
+    """One packet object is encoded, modified and encoded again: every
+    sequence of <=2 field assignments (from a menu covering every slot) on
+    packets built directly and on packets obtained by decoding."""
+    from rig.machine_control.packets import SCPPacket, SDPPacket
+    menu = [("reply_expected", False), ("tag", 7), ("dest_port", 3),
+            ("dest_cpu", 17), ("src_port", 1), ("src_cpu", 2),
+            ("dest_x", 9), ("dest_y", 8), ("src_x", 4), ("src_y", 5),
+            ("cmd_rc", 0x1234), ("seq", 0xfffe), ("arg1", 0xdeadbeef),
+            ("arg2", None), ("arg3", 5), ("data", b"xyz")]
+    for scp in (True, False):
+        cls = SCPPacket if scp else SDPPacket
+        slots = SCP_SLOTS if scp else SDP_SLOTS
+        mn = [m for m in menu if m[0] in slots]
+        for origin in ("built", "decoded"):
+            for ops in itertools.chain(
+                    ((a,) for a in mn),
+                    itertools.permutations(mn, 2)):
+                f = dict(BACKGROUNDS[2])
+                if origin == "built":
+                    pkt = cls(**{k: f[k] for k in slots})
+                else:
+                    wire0 = ref_encode(f, scp)
+                    pkt = (cls.from_bytestring(wire0, n_args=3) if scp
+                           else cls.from_bytestring(wire0))
+                acc.evaluations += 1
+                acc.nontrivial += 1
+                case = dict(scp=scp, what="history", origin=origin,
+                            ops=[[k, v.hex() if isinstance(v, bytes) else v]
+                                 for k, v in ops])
+                try:
+                    first = pkt.bytestring
+                    ok = first == ref_encode(f, scp)
+                    for k, v in ops:
+                        setattr(pkt, k, v)
+                        f[k] = v
+                        if f.get("arg2") is None and scp:
+                            # arguments are a prefix: dropping arg2 drops arg3
+                            pass
+                        wire = pkt.bytestring
+                        if wire != ref_encode(f, scp):
+                            ok = False
+                            break
+                except Exception as e:
+                    acc.violation(dict(kind="history_exception"), case,
+                                  "re-encoding raised %s: %s"
+                                  % (type(e).__name__, e))
+                    continue
+                if not ok:
+                    acc.violation(dict(kind="stale_encoding"), case,
+                                  "after %r the %s packet encodes to %s, its "
+                                  "fields say %s" % (
+                                      [o[0] for o in ops], origin, wire.hex(),
+                                      ref_encode(f, scp).hex()))
+    acc.sample(dict(part="history", menu=[m[0] for m in menu]))
+
+
 def part_pairs(acc, k):
     """Pairwise: two 8-bit fields jointly over a boundary alphabet, the 16-bit
     fields jointly with each byte field."""
@@ -261,6 +318,8 @@ def run_shard(params, tier, acc):
         part_args(acc)
     elif p == "decode":
         part_decode(acc)
+    elif p == "history":
+        part_history(acc)
     elif p in ("cmd", "seq"):
         part_word16(acc, "cmd_rc" if p == "cmd" else "seq", params["k"])
     elif p == "pairs":
@@ -270,6 +329,9 @@ def run_shard(params, tier, acc):
 def replay(case, acc):
     if case.get("what") == "decode":
         part_decode(acc)
+        return
+    if case.get("what") == "history":
+        part_history(acc)
         return
     f = dict(case["fields"])
     f["data"] = bytes.fromhex(f["data"])
